@@ -164,6 +164,8 @@ def gen_plan(seed, cfg):
         if op['op'] == 'load' and re_.random() < 0.4:
             op['override'] = [[re_.randrange(3), re_.randrange(8), re_.choice([re_.randint(1, 50), 'ov', 2.5, True])]
                               for _ in range(re_.choice([1, 1, 2]))]
+        if op['op'] == 'load' and not op.get('via_link') and re_.random() < 0.25:
+            op['defer'] = True      # the executor is given its source now and asked its first question at the end of the run
             if re_.random() < 0.5:
                 op['reset_source'] = True
     if swarm['relative']:
@@ -278,6 +280,7 @@ def run(req, ctx):
     parser = Parser().disable_safety_check()
     klass_by_text = {}
     shared_ns = {}
+    deferred = []
     log = []
     mism = []
     rewritten_and_reloaded = False
@@ -377,6 +380,22 @@ def run(req, ctx):
                             b['after_same_source_again'] = {'load': outcome_of_exc(e)}
                     return b
 
+                if op.get('defer'):
+                    # both executors are bound to their source NOW; what happens to the path afterwards (rewritten,
+                    # re-stamped) must not matter to an executor that already has its class
+                    try:
+                        spelled_path = spelled(j, op)
+                        dex_file = Executor().set_executed_class(class_file=spelled_path)
+                        if text not in klass_by_text:
+                            exec(compile(text, '<class object>', 'exec'), shared_ns)
+                            klass_by_text[text] = shared_ns['ExcelInPython']
+                        dex_obj = Executor().set_executed_class(class_object=klass_by_text[text])
+                        deferred.append((i, j, wb, spec, dex_file, dex_obj))
+                        probe('executor_prepared_first_query_deferred')
+                        log.append({'i': i, 'op': 'load', 'out': ['deferred']})
+                        continue
+                    except Exception as e:
+                        pass
                 try:
                     spelled_path = spelled(j, op)
                     ex_file = Executor().set_executed_class(class_file=spelled_path)
@@ -421,6 +440,19 @@ def run(req, ctx):
                     mism.append({'key': key, 'op': i, 'path': j, 'variant': wb, 'cells': diff[:5],
                                  'observed': {k: got.get(k) for k in diff[:3]}, 'expected': {k: want.get(k) for k in diff[:3]},
                                  'stale_cache_entry': bool(had_cache)})
+        for i_, j_, wb_, spec_, dex_file, dex_obj in deferred:
+            def first_query(ex_):
+                try:
+                    return _query_all(ex_, spec_, Cell)
+                except Exception as e:
+                    return {'load': outcome_of_exc(e)}
+            got_, want_ = first_query(dex_file), first_query(dex_obj)
+            log.append({'i': i_, 'op': 'deferred-first-query', 'out': got_})
+            if got_ != want_:
+                diff = sorted(k for k in set(got_) | set(want_) if got_.get(k) != want_.get(k))
+                mism.append({'key': 'file-loaded-differs-from-class-object', 'op': i_, 'path': j_, 'variant': wb_, 'cells': diff[:5],
+                             'observed': {k: got_.get(k) for k in diff[:3]}, 'expected': {k: want_.get(k) for k in diff[:3]},
+                             'stale_cache_entry': False, 'why': 'executor given its source at this operation, first query at the end of the run'})
     finally:
         os.chdir(cwd0)
         sys.dont_write_bytecode = True
@@ -464,6 +496,10 @@ def shrink(plan):
             o.pop('rel', None)
         yield p
     for i, o in enumerate(ops):
+        if o.get('defer'):
+            p = copy.deepcopy(plan)
+            del p['ops'][i]['defer']
+            yield p
         if o.get('reset_source'):
             p = copy.deepcopy(plan)
             del p['ops'][i]['reset_source']
